@@ -370,8 +370,14 @@ def run_c13(res, tier, seed):
     res.cov["samples"] = [{"request": reqs[i], "impl": io[i], "model": mo[i]} for i in (5, n_valid // 2, n_valid + 7) if i < len(reqs)]
 
 
-def client_slice(text, rng_):
-    """the text an editor selects for an LSP range in ITS copy of the document (UTF-16 columns); None = not a valid range"""
+def width(ch, enc):
+    return u8(ch) if enc == "utf-8" else (1 if enc == "utf-32" else u16(ch))
+
+
+def client_slice(text, rng_, enc="utf-16"):
+    """the text an editor selects for an LSP range in ITS copy of the document (columns in the negotiated encoding,
+    UTF-16 unless the server announced another one); None = not a valid range"""
+    u16 = lambda ch: width(ch, enc)
     lines = text.split("\n")
     def off(pos):
         l, c = pos["line"], pos["character"]
@@ -392,7 +398,7 @@ def client_slice(text, rng_):
     return text[a:b]
 
 
-def run_c14_e2e(res, tier, seed):
+def run_c14_e2e(res, tier, seed, prop="C14"):
     """positions the SERVER sends (handler.rs: locations, highlights, rename edits, prepare-rename ranges) in a project of
     several documents with different line tables: the editor slices its own copy of the named document"""
     import shutil, lsp
@@ -422,7 +428,13 @@ def run_c14_e2e(res, tier, seed):
             byuri = {u: n for n, u in uri.items()}
             c = lsp.Lsp(root)
             try:
-                if c.initialize() is None:
+                # half of the sessions offer UTF-8 positions (LSP 3.17 negotiation): whatever the server announces is what
+                # the editor then counts columns in, for the positions it sends and the ranges it receives
+                if c.initialize(position_encodings=(["utf-8", "utf-16"] if k % 2 else None)) is None:
+                    continue
+                enc = c.position_encoding
+                if enc not in ("utf-8", "utf-16", "utf-32"):
+                    res.add_violation(prop + "/unknown-position-encoding", f"the server announces the position encoding {enc!r}", {"offered": ["utf-8", "utf-16"]})
                     continue
                 for n in ("main", "lib", "third"):
                     c.notify("textDocument/didOpen", {"textDocument": {"uri": uri[n], "languageId": "gleam", "version": 1, "text": texts[n]}})
@@ -433,7 +445,7 @@ def run_c14_e2e(res, tier, seed):
                         i = t.index(needle, i + 1)
                     i += delta
                     line = t.count("\n", 0, i)
-                    col = sum(u16(ch) for ch in t[t.rfind("\n", 0, i) + 1:i])
+                    col = sum(width(ch, enc) for ch in t[t.rfind("\n", 0, i) + 1:i])
                     return {"line": line, "character": col}
                 asks = [("main", "lib.target", 0, 4), ("main", "lib.target", 1, 4), ("lib", "fn target", 0, 3), ("lib", "target()", 1, 0), ("third", "lib.target", 0, 4)]
                 for (n, needle, nth, delta) in asks:
@@ -461,11 +473,11 @@ def run_c14_e2e(res, tier, seed):
                         name = byuri.get(u) or byuri.get("file://" + os.path.normpath(u[7:]))
                         if name is None or not isinstance(rg, dict) or "start" not in rg:
                             continue
-                        sel = client_slice(texts[name], rg)
+                        sel = client_slice(texts[name], rg, enc)
                         if sel != "target":
-                            res.add_violation("C14/server-range-selects-other-text",
+                            res.add_violation(prop + "/server-range-selects-other-text",
                                               f"{what} asked in {n}.gleam: the range {rg['start']['line']}:{rg['start']['character']}-{rg['end']['line']}:{rg['end']['character']} "
-                                              f"in {name}.gleam selects {sel!r} in the editor's copy, not `target`",
+                                              f"in {name}.gleam selects {sel!r} in the editor's copy (columns counted in {enc}), not `target`",
                                               {"texts": texts, "asked_in": n, "position": p["position"], "request": what, "answer_uri": u, "answer_range": rg})
                             break
             finally:
